@@ -154,6 +154,9 @@ func IsNil(it LinkOrIRI) bool {
 	}
 	// This is the default if the argument can't be cast to Object, as is the case for an ItemCollection
 	isNil := false
+	if i, ok := it.(*IRI); ok && i == nil {
+		return true
+	}
 	if IsIRI(it) {
 		isNil = len(it.GetLink()) == 0 || strings.EqualFold(it.GetLink().String(), NilIRI.String())
 	} else if IsItemCollection(it) {
